@@ -1,6 +1,6 @@
 """Property -> rules."""
 from .prog import Program
-from . import rules_cg, lalr, rules_dispatch, rules_wrap, rules_mem, rules_state, rules_dstr, rules_recurse, rules_misc, rules_critic, rules_esc, rules_wrapper, rules_anchor
+from . import rules_cg, lalr, rules_dispatch, rules_wrap, rules_mem, rules_state, rules_dstr, rules_recurse, rules_misc, rules_critic, rules_esc, rules_wrapper, rules_anchor, rules_sink
 
 _progs = {}
 
@@ -35,6 +35,9 @@ def c04(chk, tier):
     chk.explanation = "Static: R-DISPATCH/text sibling agreement of the writers' per-type branches (EDPE)."
     disp = rules_dispatch.r_dispatch(P(), chk, "C04")
     rules_dispatch.r_dispatch_text(P(), chk, disp)
+    rules_sink.r_sink(P(), chk, prop="C04")
+    rules_sink.r_rawtoken(P(), chk)
+    rules_esc.r_escaper_complete(P(), chk, formats=("html", "odf", "latex"))
 
 
 def c06(chk, tier):
@@ -112,7 +115,16 @@ def c10(chk, tier):
     rules_anchor.r_anchor(P(), chk)
 
 
+def c08(chk, tier):
+    chk.explanation = "Static: R-SINK escaping discipline at output sinks of the XML writers; escaper completeness."
+    rules_sink.r_sink(P(), chk)
+    rules_sink.r_rawtoken(P(), chk)
+    rules_esc.r_escaper_complete(P(), chk)
+    rules_esc.r_escpair(P(), chk)
+
+
 PROPS = {
+    "C08": ("other", c08),
     "C10": ("other", c10),
     "C11": ("other", c11),
     "C20": ("other", c20),
